@@ -162,65 +162,18 @@ Proof.
   destruct (blen cur =? l + 4) eqn:E1; [lia|]. destruct (blen cur >? l + 4) eqn:E2; [|lia]. reflexivity.
 Qed.
 
-(* every way out of feed_packet that delivers or detects an overflow leaves the initial state *)
 Lemma asm_check_reset cur l s o : asm_check cur l = (s, o) -> o <> [] -> s = asm_init.
 Proof.
   unfold asm_check. destruct (blen cur =? l + 4); [intros H; inversion H; reflexivity|].
   destruct (blen cur >? l + 4); intros H; inversion H; subst; [reflexivity|congruence].
 Qed.
 
-Lemma feed_cont_partial h c cur l :
-  blen (cur ++ c) < l + 4 -> feed (Some cur, l) (cont h c) = ((Some (cur ++ c), l), []).
-Proof. intros H. unfold feed, cont. cbn. apply asm_check_lt. exact H. Qed.
-
-(* continuation fragments on top of a partial PDU: while the data stays below the announced
-   length nothing happens; the last fragment decides *)
-Lemma conts_run h : forall r cur l, r <> [] ->
-  blen (cur ++ concat (removelast r)) < l + 4 ->
-  asm_run (Some cur, l) (map (cont h) r) = asm_check (cur ++ concat r) l.
+Lemma asm_tail_reset cur l0 s o : asm_tail cur l0 = (s, o) -> o <> [] -> s = asm_init.
 Proof.
-  induction r as [|c r IH]; intros cur l Hne Hlt; [congruence|].
-  destruct r as [|c' r'].
-  - cbn [map asm_run concat]. rewrite app_nil_r.
-    unfold feed, cont. cbn [a_pb a_data fst snd]. cbn.
-    destruct (asm_check (cur ++ c) l) as [s o]. rewrite app_nil_r. reflexivity.
-  - change (removelast (c :: c' :: r')) with (c :: removelast (c' :: r')) in Hlt.
-    cbn [concat] in Hlt. rewrite app_assoc in Hlt.
-    assert (Hc : blen (cur ++ c) < l + 4).
-    { rewrite blen_app in Hlt. pose proof (blen_nonneg (concat (removelast (c' :: r')))). lia. }
-    change (map (cont h) (c :: c' :: r')) with (cont h c :: map (cont h) (c' :: r')).
-    cbn [asm_run]. rewrite feed_cont_partial by exact Hc.
-    rewrite (IH (cur ++ c) l) by (congruence || exact Hlt).
-    cbn [concat]. rewrite <- app_assoc.
-    destruct (asm_check _ l). reflexivity.
-Qed.
-
-(* a start fragment that carries the length field overwrites whatever state there was *)
-Lemma feed_start s h pb b0 b1 rest :
-  pb = 0 \/ pb = 2 ->
-  feed s (start h pb (b0 :: b1 :: rest)) = asm_check (b0 :: b1 :: rest) (rd16 b0 b1).
-Proof. intros [-> | ->]; reflexivity. Qed.
-
-(* One fragment sequence: a start fragment announcing l, then continuation fragments.
-   If everything before the last fragment is below the announced length, the result is
-   decided by the total: equal delivers, more is an overflow, less stays pending. *)
-Lemma one_sequence s h pb b0 b1 rest r :
-  pb = 0 \/ pb = 2 ->
-  let c0 := b0 :: b1 :: rest in
-  let l := rd16 b0 b1 in
-  (r <> [] -> blen (c0 ++ concat (removelast r)) < l + 4) ->
-  asm_run s (start h pb c0 :: map (cont h) r) = asm_check (c0 ++ concat r) l.
-Proof.
-  intros Hpb c0 l Hlt. subst c0 l. cbn [asm_run]. rewrite feed_start by exact Hpb.
-  set (c0 := b0 :: b1 :: rest) in *. set (l := rd16 b0 b1) in *.
-  destruct r as [|c r'].
-  - cbn [map asm_run concat]. rewrite app_nil_r. destruct (asm_check c0 l). rewrite app_nil_r. reflexivity.
-  - specialize (Hlt ltac:(congruence)).
-    assert (Hc0 : blen c0 < l + 4).
-    { rewrite blen_app in Hlt. pose proof (blen_nonneg (concat (removelast (c :: r')))). lia. }
-    rewrite asm_check_lt by exact Hc0.
-    rewrite conts_run by (congruence || exact Hlt).
-    destruct (asm_check (c0 ++ concat (c :: r')) l). reflexivity.
+  unfold asm_tail. destruct cur as [|b0 [|b1 t]].
+  - intros H; inversion H; congruence.
+  - intros H; inversion H; congruence.
+  - apply asm_check_reset.
 Qed.
 
 (* a well-formed PDU as the assembler sees it: at least the 4 header bytes, length field
@@ -230,6 +183,113 @@ Definition pdu_wf (pdu : bytes) : Prop :=
   | b0 :: b1 :: _ => blen pdu = rd16 b0 b1 + 4
   | _ => False
   end.
+
+(* accumulated data that makes feed_packet wait: the length field is not complete yet, or
+   fewer bytes than announced *)
+Definition pending (cur : bytes) : Prop :=
+  match cur with
+  | b0 :: b1 :: _ => blen cur < rd16 b0 b1 + 4
+  | _ => True
+  end.
+
+Lemma asm_tail_pending cur l0 : pending cur -> exists l, asm_tail cur l0 = ((Some cur, l), []).
+Proof.
+  destruct cur as [|b0 [|b1 t]]; cbn [pending asm_tail]; intros H; try (eexists; reflexivity).
+  exists (rd16 b0 b1). apply asm_check_lt. exact H.
+Qed.
+
+Lemma asm_tail_wf pdu l0 : pdu_wf pdu -> asm_tail pdu l0 = (asm_init, [Deliver pdu]).
+Proof.
+  destruct pdu as [|b0 [|b1 t]]; cbn [pdu_wf asm_tail]; try contradiction. apply asm_check_eq.
+Qed.
+
+Lemma asm_tail_2 b0 b1 t l0 : asm_tail (b0 :: b1 :: t) l0 = asm_check (b0 :: b1 :: t) (rd16 b0 b1).
+Proof. reflexivity. Qed.
+
+(* every proper prefix of a well-formed PDU is pending: this is why ANY cut works, also one
+   that leaves fewer than two bytes in the start fragment *)
+Lemma strict_prefix_pending pdu p q : pdu_wf pdu -> pdu = p ++ q -> q <> [] -> pending p.
+Proof.
+  intros Hwf -> Hq. destruct p as [|b0 [|b1 t]]; cbn [pending]; auto.
+  cbn [app pdu_wf] in Hwf. rewrite <- Hwf.
+  change (b0 :: b1 :: t ++ q) with ((b0 :: b1 :: t) ++ q). rewrite blen_app.
+  assert (0 < blen q); [|lia]. destruct q; [congruence|]. unfold blen. cbn [length]. lia.
+Qed.
+
+Definition cont_pkt_is (h : Z) (c : bytes) : feed (None, 0) (cont h c) = ((None, 0), [ContNoStart]) := eq_refl.
+
+Lemma feed_start s h pb c : pb = 0 \/ pb = 2 -> feed s (start h pb c) = asm_tail c 0.
+Proof. intros [-> | ->]; reflexivity. Qed.
+
+Lemma feed_cont cur l h c : feed (Some cur, l) (cont h c) = asm_tail (cur ++ c) l.
+Proof. reflexivity. Qed.
+
+(* continuation fragments on top of stored data: while every intermediate accumulation is
+   pending nothing happens; the last fragment decides *)
+Lemma conts_run h : forall r cur l0, r <> [] ->
+  (forall r1 r2, r = r1 ++ r2 -> r1 <> [] -> r2 <> [] -> pending (cur ++ concat r1)) ->
+  exists l, asm_run (Some cur, l0) (map (cont h) r) = asm_tail (cur ++ concat r) l.
+Proof.
+  induction r as [|c r IH]; intros cur l0 Hne Hp; [congruence|].
+  destruct r as [|c' r'].
+  - exists l0. cbn [map asm_run concat]. rewrite app_nil_r, feed_cont.
+    destruct (asm_tail (cur ++ c) l0). rewrite app_nil_r. reflexivity.
+  - assert (Hc : pending (cur ++ c)).
+    { specialize (Hp [c] (c' :: r') eq_refl ltac:(congruence) ltac:(congruence)).
+      cbn [concat] in Hp. rewrite app_nil_r in Hp. exact Hp. }
+    destruct (asm_tail_pending (cur ++ c) l0 Hc) as (l1 & Hl1).
+    destruct (IH (cur ++ c) l1 ltac:(congruence)) as (l2 & Hl2).
+    { intros r1 r2 E Hr1 Hr2. rewrite <- app_assoc.
+      apply (Hp (c :: r1) r2); [rewrite E; reflexivity|congruence|exact Hr2]. }
+    exists l2. change (map (cont h) (c :: c' :: r')) with (cont h c :: map (cont h) (c' :: r')).
+    cbn [asm_run]. rewrite feed_cont, Hl1. cbv beta iota. unfold bytes in *. rewrite Hl2. clear Hl2. cbn [concat]. rewrite <- app_assoc.
+    destruct (asm_tail _ l2). reflexivity.
+Qed.
+
+(* One fragment sequence, any cut: a start fragment (of any length, also 0 or 1 bytes), then
+   continuation fragments.  If every accumulation before the last fragment is pending, the
+   outcome is the length test on the total. *)
+Lemma one_sequence_gen s h pb c0 r :
+  pb = 0 \/ pb = 2 ->
+  (forall r1 r2, r = r1 ++ r2 -> r2 <> [] -> pending (c0 ++ concat r1)) ->
+  exists l, asm_run s (start h pb c0 :: map (cont h) r) = asm_tail (c0 ++ concat r) l.
+Proof.
+  intros Hpb Hp. cbn [asm_run]. rewrite feed_start by exact Hpb.
+  destruct r as [|c r'].
+  - exists 0. cbn [map asm_run concat]. rewrite app_nil_r. destruct (asm_tail c0 0). rewrite app_nil_r. reflexivity.
+  - assert (Hc0 : pending c0).
+    { specialize (Hp [] (c :: r') eq_refl ltac:(congruence)). cbn [concat] in Hp. rewrite app_nil_r in Hp. exact Hp. }
+    destruct (asm_tail_pending c0 0 Hc0) as (l1 & ->).
+    destruct (conts_run h (c :: r') c0 l1 ltac:(congruence)) as (l2 & Hl2).
+    { intros r1 r2 E _ Hr2. apply (Hp r1 r2 E Hr2). }
+    exists l2. cbv beta iota. unfold bytes in *. rewrite Hl2. clear Hl2. destruct (asm_tail _ l2). reflexivity.
+Qed.
+
+(* the same for a start fragment that carries the length field, with the bound stated on
+   the data before the last fragment *)
+Lemma concat_prefix_le (r r1 r2 : list bytes) :
+  r = r1 ++ r2 -> r2 <> [] -> blen (concat r1) <= blen (concat (removelast r)).
+Proof.
+  intros -> H2. rewrite removelast_app by exact H2. rewrite concat_app, blen_app.
+  pose proof (blen_nonneg (concat (removelast r2))). lia.
+Qed.
+
+Lemma one_sequence s h pb b0 b1 rest r :
+  pb = 0 \/ pb = 2 ->
+  let c0 := b0 :: b1 :: rest in
+  let l := rd16 b0 b1 in
+  (r <> [] -> blen (c0 ++ concat (removelast r)) < l + 4) ->
+  asm_run s (start h pb c0 :: map (cont h) r) = asm_check (c0 ++ concat r) l.
+Proof.
+  intros Hpb c0 l Hlt. subst c0 l.
+  destruct (one_sequence_gen s h pb (b0 :: b1 :: rest) r Hpb) as (l' & ->).
+  - intros r1 r2 E Hr2. cbn [app pending].
+    assert (Hr : r <> []) by (rewrite E; destruct r1; [exact Hr2|discriminate]).
+    specialize (Hlt Hr). pose proof (concat_prefix_le r r1 r2 E Hr2).
+    change (b0 :: b1 :: rest ++ concat r1) with ((b0 :: b1 :: rest) ++ concat r1).
+    rewrite blen_app in *. unfold bytes in *. lia.
+  - reflexivity.
+Qed.
 
 Lemma concat_removelast_lt (cs : list bytes) :
   cs <> [] -> Forall (fun c => (1 <= length c)%nat) cs ->
@@ -241,48 +301,55 @@ Proof.
   unfold blen. lia.
 Qed.
 
+Lemma concat_nonempty (r : list bytes) :
+  r <> [] -> Forall (fun c => (1 <= length c)%nat) r -> concat r <> [].
+Proof.
+  intros Hne Hall. destruct r as [|c r']; [congruence|]. inversion Hall as [|? ? Hc _]; subst.
+  cbn [concat]. destruct c; [cbn in Hc; lia|discriminate].
+Qed.
+
 (* RESYNC, single PDU: from ANY assembler state the fragments of a well-formed PDU, cut by
-   any m >= 2 and with either start marker, deliver exactly that PDU and leave the initial state *)
+   ANY m >= 1 and with either start marker, deliver exactly that PDU and leave the initial state *)
 Theorem asm_fragment s h pb m pdu ps :
-  2 <= m -> pb = 0 \/ pb = 2 -> pdu_wf pdu ->
+  1 <= m -> pb = 0 \/ pb = 2 -> pdu_wf pdu ->
   fragment h pb m pdu = Some ps ->
   asm_run s ps = (asm_init, [Deliver pdu]).
 Proof.
   intros Hm Hpb Hwf Hf.
-  destruct (fragment_chunks h pb m pdu ltac:(lia)) as (cs & Hf' & Hcat & Hall & Hfull).
+  destruct (fragment_chunks h pb m pdu Hm) as (cs & Hf' & Hcat & Hall & Hfull).
   rewrite Hf in Hf'. inversion Hf'; subst ps. clear Hf Hf'.
-  destruct pdu as [|b0 [|b1 rest]]; try contradiction. cbn [pdu_wf] in Hwf.
-  destruct cs as [|c0 r]; [discriminate|].
-  (* the first chunk holds the two length bytes because m >= 2 *)
-  assert (Hc0 : exists rest0, c0 = b0 :: b1 :: rest0).
-  { cbn [full_but_last] in Hfull. cbn [concat] in Hcat.
-    destruct r as [|c1 r1].
-    - rewrite app_nil_r in Hcat. exists rest. exact Hcat.
-    - destruct Hfull as [Hlen _].
-      destruct c0 as [|x0 [|x1 rest0]]; cbn [length] in Hlen; try lia.
-      cbn [app] in Hcat. inversion Hcat; subst. eexists; reflexivity. }
-  destruct Hc0 as (rest0 & ->).
-  rewrite mark_frags_eq.
-  rewrite one_sequence.
-  - cbn [concat] in Hcat. rewrite Hcat. apply asm_check_eq. exact Hwf.
-  - exact Hpb.
-  - intros Hr. rewrite <- Hwf, <- Hcat. cbn [concat]. rewrite !blen_app.
-    inversion Hall as [|? ? _ Hall']; subst.
-    assert (blen (concat (removelast r)) < blen (concat r)); [|unfold bytes in *; lia].
-    apply concat_removelast_lt; [exact Hr|].
-    eapply Forall_impl; [|exact Hall']. cbn. intros; lia.
+  destruct cs as [|c0 r].
+  { cbn [concat] in Hcat. subst pdu. contradiction. }
+  rewrite mark_frags_eq. inversion Hall as [|? ? _ Hall']; subst.
+  assert (Hall1 : Forall (fun c : bytes => (1 <= length c)%nat) r)
+    by (eapply Forall_impl; [|exact Hall']; cbn; intros; lia).
+  destruct (one_sequence_gen s h pb c0 r Hpb) as (l & ->).
+  - intros r1 r2 E Hr2. apply (strict_prefix_pending (concat (c0 :: r)) _ (concat r2) Hwf).
+    + cbn [concat]. rewrite E, concat_app, app_assoc. reflexivity.
+    + apply concat_nonempty; [exact Hr2|]. rewrite E in Hall1. apply Forall_app in Hall1. apply Hall1.
+  - apply asm_tail_wf. exact Hwf.
 Qed.
 
-(* without m >= 2 the statement is false: with m = 1 the start fragment cannot carry the
-   length field and the real code raises struct.error *)
-Lemma asm_fragment_m1_refuted :
+(* before fix D05b the statement was false for m = 1: the start fragment cannot carry the
+   length field and the code raised struct.error *)
+Fixpoint asm_run_before_d05b (s : asm) (ps : list acl) : asm * list asm_ev :=
+  match ps with
+  | [] => (s, [])
+  | p :: ps' =>
+      let '(s1, o1) := feed_before_d05b s p in
+      let '(s2, o2) := asm_run_before_d05b s1 ps' in
+      (s2, o1 ++ o2)
+  end.
+
+Lemma asm_fragment_m1_before_d05b_refuted :
   exists pdu ps, pdu_wf pdu /\ fragment 1 0 1 pdu = Some ps /\
-                 deliveries (snd (asm_run asm_init ps)) = [].
-Proof. exists [1; 0; 4; 0; 9]. eexists. split; [reflexivity|]. split; vm_compute; reflexivity. Qed.
+                 deliveries (snd (asm_run_before_d05b asm_init ps)) = [] /\
+                 deliveries (snd (asm_run asm_init ps)) = [pdu].
+Proof. exists [1; 0; 4; 0; 9]. eexists. split; [reflexivity|]. repeat split; vm_compute; reflexivity. Qed.
 
 (* RESYNC with arbitrary garbage in front *)
 Theorem asm_resync s junk h pb m pdu ps :
-  2 <= m -> pb = 0 \/ pb = 2 -> pdu_wf pdu -> fragment h pb m pdu = Some ps ->
+  1 <= m -> pb = 0 \/ pb = 2 -> pdu_wf pdu -> fragment h pb m pdu = Some ps ->
   asm_run s (junk ++ ps) = (asm_init, snd (asm_run s junk) ++ [Deliver pdu]).
 Proof.
   intros Hm Hpb Hwf Hf. rewrite asm_run_app.
@@ -295,7 +362,7 @@ Qed.
 Record item := mkItem { it_junk : list acl; it_h : Z; it_pb : Z; it_m : Z; it_pdu : bytes }.
 
 Definition item_wf (i : item) : Prop :=
-  2 <= it_m i /\ (it_pb i = 0 \/ it_pb i = 2) /\ pdu_wf (it_pdu i).
+  1 <= it_m i /\ (it_pb i = 0 \/ it_pb i = 2) /\ pdu_wf (it_pdu i).
 
 Definition item_packets (i : item) : list acl :=
   it_junk i ++ match fragment (it_h i) (it_pb i) (it_m i) (it_pdu i) with Some ps => ps | None => [] end.
@@ -315,7 +382,7 @@ Proof.
   induction items as [|i r IH]; intros s Hwf.
   - cbn. split; [reflexivity|congruence].
   - inversion Hwf as [|? ? (Hm & Hpb & Hp) Hr]; subst.
-    destruct (fragment_spec (it_h i) (it_pb i) (it_m i) (it_pdu i) ltac:(lia)) as (ps & Hf & _).
+    destruct (fragment_spec (it_h i) (it_pb i) (it_m i) (it_pdu i) Hm) as (ps & Hf & _).
     destruct (asm_run s (it_junk i)) as [s1 o1] eqn:Ej.
     destruct (IH asm_init Hr) as [IHd IHs].
     destruct (asm_run asm_init (flat_map item_packets r)) as [s3 o3] eqn:Er.
@@ -339,7 +406,7 @@ Proof.
 Qed.
 
 Theorem asm_sequence h pb m pdus s :
-  2 <= m -> pb = 0 \/ pb = 2 -> Forall pdu_wf pdus ->
+  1 <= m -> pb = 0 \/ pb = 2 -> Forall pdu_wf pdus ->
   deliveries (snd (asm_run s (flat_map item_packets (map (clean h pb m) pdus)))) = pdus.
 Proof.
   intros Hm Hpb Hwf.
@@ -394,7 +461,7 @@ Theorem truncated_then_next s h pb b0 b1 rest r h' pb' m pdu ps :
   pb = 0 \/ pb = 2 ->
   let c0 := b0 :: b1 :: rest in
   blen (c0 ++ concat r) < rd16 b0 b1 + 4 ->
-  2 <= m -> pb' = 0 \/ pb' = 2 -> pdu_wf pdu -> fragment h' pb' m pdu = Some ps ->
+  1 <= m -> pb' = 0 \/ pb' = 2 -> pdu_wf pdu -> fragment h' pb' m pdu = Some ps ->
   asm_run s ((start h pb c0 :: map (cont h) r) ++ ps) = (asm_init, [Deliver pdu]).
 Proof.
   intros Hpb c0 Hlt Hm Hpb' Hwf Hf. subst c0. rewrite asm_run_app. rewrite one_sequence; [|exact Hpb|].
@@ -412,14 +479,11 @@ Theorem feed_resets s p s' o :
   feed s p = (s', o) -> (exists d, In (Deliver d) o) \/ In Overflow o -> s' = asm_init.
 Proof.
   unfold feed. intros H Ho.
-  assert (Hne : forall cur l, asm_check cur l = (s', o) -> s' = asm_init).
-  { intros cur l Hc. apply (asm_check_reset cur l s' o Hc).
+  assert (Hne : forall cur l, asm_tail cur l = (s', o) -> s' = asm_init).
+  { intros cur l Hc. apply (asm_tail_reset cur l s' o Hc).
     destruct Ho as [(d & Hd)|Hd]; intros ->; inversion Hd. }
   destruct ((a_pb p =? 0) || (a_pb p =? 2)).
-  - destruct (a_data p) as [|b0 [|b1 t]].
-    + inversion H; subst. destruct Ho as [(d & [Hd|[]])|[Hd|[]]]; discriminate.
-    + inversion H; subst. destruct Ho as [(d & [Hd|[]])|[Hd|[]]]; discriminate.
-    + eapply Hne; exact H.
+  - eapply Hne; exact H.
   - destruct (a_pb p =? 1).
     + destruct (fst s).
       * eapply Hne; exact H.
@@ -427,6 +491,37 @@ Proof.
     + destruct (fst s).
       * eapply Hne; exact H.
       * inversion H; subst. destruct Ho as [(d & [Hd|[]])|[Hd|[]]]; discriminate.
+Qed.
+
+(* SOUNDNESS of deliveries, from ANY state and for ANY packets: whatever the assembler hands
+   to L2CAP has a length field that matches its size (it can be parsed, nothing is cut off) *)
+Lemma asm_tail_delivers_wf cur l0 s o d : asm_tail cur l0 = (s, o) -> In (Deliver d) o -> pdu_wf d.
+Proof.
+  unfold asm_tail. destruct cur as [|b0 [|b1 t]].
+  - intros H; inversion H; subst. intros [].
+  - intros H; inversion H; subst. intros [].
+  - unfold asm_check. destruct (blen (b0 :: b1 :: t) =? rd16 b0 b1 + 4) eqn:E.
+    + intros H; inversion H; subst. intros [Hd|[]]. inversion Hd; subst. cbn [pdu_wf]. lia.
+    + destruct (blen (b0 :: b1 :: t) >? rd16 b0 b1 + 4); intros H; inversion H; subst; cbn [In]; intuition discriminate.
+Qed.
+
+Theorem feed_delivers_wf s p s' o d : feed s p = (s', o) -> In (Deliver d) o -> pdu_wf d.
+Proof.
+  unfold feed. destruct ((a_pb p =? 0) || (a_pb p =? 2)); [apply asm_tail_delivers_wf|].
+  destruct (a_pb p =? 1); destruct (fst s); try apply asm_tail_delivers_wf;
+    intros H; inversion H; subst; cbn [In]; intuition discriminate.
+Qed.
+
+Theorem asm_run_delivers_wf : forall ps s d, In d (deliveries (snd (asm_run s ps))) -> pdu_wf d.
+Proof.
+  induction ps as [|p r IH]; intros s d; cbn [asm_run]; [intros []|].
+  destruct (feed s p) as [s1 o1] eqn:Ef. destruct (asm_run s1 r) as [s2 o2] eqn:Er.
+  cbn [snd]. rewrite deliveries_app. intros Hin. apply in_app_or in Hin. destruct Hin as [Hin|Hin].
+  - assert (In (Deliver d) o1).
+    { clear -Hin. induction o1 as [|e o IHo]; [destruct Hin|]. destruct e; cbn [deliveries] in Hin;
+        try (right; apply IHo; exact Hin). destruct Hin as [->|Hin]; [left; reflexivity|right; apply IHo; exact Hin]. }
+    eapply feed_delivers_wf; eassumption.
+  - apply (IH s1 d). rewrite Er. exact Hin.
 Qed.
 
 (* ------------------------------------------------------------------ L2CAP basic header *)
@@ -627,7 +722,7 @@ Qed.
 
 (* reassembly of a clean fragment stream, through the wire *)
 Lemma rx_clean h pb m pdus :
-  0 <= h < 4096 -> pb = 0 \/ pb = 2 -> 2 <= m <= 65535 -> Forall pdu_wf pdus ->
+  0 <= h < 4096 -> pb = 0 \/ pb = 2 -> 1 <= m <= 65535 -> Forall pdu_wf pdus ->
   deliveries (snd (asm_run asm_init (wire (flat_map (frags h pb m) pdus)))) = pdus.
 Proof.
   intros Hh Hpb Hm Hwf. rewrite wire_id by (apply flat_map_frags_ok; lia).
@@ -641,7 +736,7 @@ Proof. induction xs as [|x r IH]; [reflexivity|]. cbn [map flat_map]. rewrite IH
 (* END TO END: any list of sendable PDUs, any fragment sizes 2..65535 on either side, any
    handles: the receiving host's L2CAP layer sees exactly the PDUs sent, once each, in order *)
 Theorem relay_intact hA mA hB mB pdus :
-  0 <= hA < 4096 -> 0 <= hB < 4096 -> 2 <= mA <= 65535 -> 2 <= mB <= 65535 ->
+  0 <= hA < 4096 -> 0 <= hB < 4096 -> 1 <= mA <= 65535 -> 1 <= mB <= 65535 ->
   Forall sendable pdus ->
   relay hA mA hB mB pdus = Some pdus.
 Proof.
@@ -888,3 +983,106 @@ Proof.
   rewrite map_map. cbn [fst]. rewrite <- (map_nth_seq pk d) at 2.
   apply map_ext. intros i. rewrite Nat2Z.id. reflexivity.
 Qed.
+
+(* ------------------------------------------------------------------ receiving side with injected faults *)
+(* what the receiving host is fed: before each PDU's fragments an arbitrary packet sequence *)
+Definition faulty_stream (hB mB : Z) (xs : list (list acl * (Z * bytes))) : list acl :=
+  flat_map (fun x => fst x ++ frags hB 2 mB (l2bytes (snd x))) xs.
+
+Definition silent (junk : list acl) : Prop := deliveries (snd (asm_run asm_init junk)) = [].
+
+(* "a malformed fragment sequence costs only the affected PDU and never corrupts the next one":
+   if the injected sequences deliver nothing by themselves (truncated, start lost, too long, ...),
+   the L2CAP layer sees exactly the PDUs sent, once, in order - whatever the sequences are *)
+Theorem rx_with_faults hB mB xs :
+  1 <= mB -> Forall sendable (map snd xs) -> Forall (fun x => silent (fst x)) xs ->
+  flat_map host_on_acl_pdu (deliveries (snd (asm_run asm_init (faulty_stream hB mB xs)))) = map snd xs.
+Proof.
+  intros Hm Hs Hj.
+  set (items := map (fun x => mkItem (fst x) hB 2 mB (l2bytes (snd x))) xs).
+  assert (Hpk : faulty_stream hB mB xs = flat_map item_packets items).
+  { unfold faulty_stream, items. rewrite flat_map_map. apply flat_map_ext. intros x.
+    unfold item_packets, frags. cbn [it_junk it_h it_pb it_m it_pdu]. reflexivity. }
+  assert (Hwf : Forall item_wf items).
+  { unfold items. apply Forall_forall. intros i Hi. apply in_map_iff in Hi. destruct Hi as (x & <- & Hin).
+    unfold item_wf. cbn [it_m it_pb it_pdu]. split; [exact Hm|]. split; [right; reflexivity|].
+    rewrite Forall_forall in Hs. apply (l2bytes_spec (snd x)). apply Hs. apply in_map. exact Hin. }
+  rewrite Hpk. rewrite (proj1 (asm_stream items asm_init Hwf)). unfold items. clear Hpk Hwf items.
+  induction xs as [|x r IH]; [reflexivity|].
+  inversion Hs as [|? ? Hx Hr]; subst. inversion Hj as [|? ? Hjx Hjr]; subst.
+  cbn [map stream_spec it_junk it_pdu]. unfold silent in Hjx. rewrite Hjx. cbn [app flat_map].
+  rewrite (proj2 (proj2 (l2bytes_spec (snd x) Hx))). rewrite IH by assumption. reflexivity.
+Qed.
+
+(* the sequences the property names are silent *)
+Lemma silent_conts ps : Forall (fun p => a_pb p = 1) ps -> silent ps.
+Proof.
+  intros H. unfold silent, asm_init. rewrite conts_without_start by exact H. cbn [snd].
+  induction ps; [reflexivity|]. cbn [map deliveries]. inversion H; subst. auto.
+Qed.
+
+Lemma silent_overflow h pb b0 b1 rest r more :
+  pb = 0 \/ pb = 2 ->
+  (r <> [] -> blen ((b0 :: b1 :: rest) ++ concat (removelast r)) < rd16 b0 b1 + 4) ->
+  blen ((b0 :: b1 :: rest) ++ concat r) > rd16 b0 b1 + 4 ->
+  Forall (fun p => a_pb p = 1) more ->
+  silent (start h pb (b0 :: b1 :: rest) :: map (cont h) r ++ more).
+Proof.
+  intros Hpb Hlt Hgt Hmore. unfold silent.
+  rewrite (overflow_costs_one_pdu asm_init h pb b0 b1 rest r more Hpb Hlt Hgt Hmore). cbn [snd deliveries].
+  clear. induction more; [reflexivity|]. cbn [map deliveries]. assumption.
+Qed.
+
+Lemma silent_truncated h pb b0 b1 rest r :
+  pb = 0 \/ pb = 2 -> blen ((b0 :: b1 :: rest) ++ concat r) < rd16 b0 b1 + 4 ->
+  silent (start h pb (b0 :: b1 :: rest) :: map (cont h) r).
+Proof.
+  intros Hpb Hlt. unfold silent. rewrite one_sequence; [|exact Hpb|].
+  - rewrite asm_check_lt by exact Hlt. reflexivity.
+  - intros Hr.
+    assert (blen (concat (removelast r)) <= blen (concat r)).
+    { rewrite (app_removelast_last [] Hr) at 2. rewrite concat_app, blen_app.
+      pose proof (blen_nonneg (concat [last r []])). unfold bytes in *. lia. }
+    rewrite blen_app in *. unfold bytes in *. lia.
+Qed.
+
+(* ------------------------------------------------------------------ ISO: what is sent can be read back *)
+Lemma iso_shape_ok h maxp seq total : 0 <= h < 4096 -> maxp <= 65535 -> 0 <= seq <= 65535 -> 0 <= total < 4096 ->
+  forall ps first, iso_shape first seq total ps ->
+  Forall (fun p => i_handle p = h /\ 1 <= blen (i_frag p) /\ 0 <= i_len p <= maxp) ps ->
+  Forall (fun p => iso_first_ok p \/ iso_cont_ok p) ps.
+Proof.
+  intros Hh Hmax Hseq Htot. induction ps as [|p r IH]; intros first Hshape Hall; [constructor|].
+  cbn [iso_shape] in Hshape. destruct Hshape as (Hpb & Hinfo & Hts & Hrest).
+  pose proof (Forall_inv Hall) as (Hph & _ & Hlen). pose proof (Forall_inv_tail Hall) as Hall'.
+  constructor; [|apply (IH false Hrest Hall')].
+  destruct first.
+  - left. destruct Hinfo as (Hs & Hl & Hf & _). unfold iso_first_ok. rewrite Hph.
+    repeat split; try lia; try exact Hts.
+    + destruct r; [right|left]; exact Hpb.
+    + exists seq, total. repeat split; auto; lia.
+  - right. destruct Hinfo as (Hs & Hl & Hf & _). unfold iso_cont_ok. rewrite Hph.
+    repeat split; try lia; auto.
+    destruct r; [right|left]; exact Hpb.
+Qed.
+
+(* every packet send_iso_sdu emits survives the wire format, byte for byte (SDU < 2^12 bytes):
+   the receiving host's HCI_IsoDataPacket.from_bytes sees the same handle, markers, sequence
+   number, SDU length and fragment *)
+Theorem iso_sdu_wire_intact h maxp seq sdu :
+  0 <= h < 4096 -> 4 < maxp <= 65535 -> 0 <= seq <= 65535 -> blen sdu < 4096 ->
+  exists ps, fst (send_iso_sdu h maxp seq sdu) = Some ps /\
+             concat (map i_frag ps) = sdu /\
+             Forall (fun p => exists b, iso_to_bytes p = Some b /\ iso_from_bytes b = Some p) ps.
+Proof.
+  intros Hh Hmax Hseq Hlen.
+  destruct (send_iso_sdu_spec h maxp seq sdu ltac:(lia) ltac:(lia)) as (ps & Hs & Hcat & Hall & Hshape).
+  exists ps. rewrite Hs. split; [reflexivity|]. split; [exact Hcat|].
+  pose proof (iso_shape_ok h maxp seq (blen sdu) Hh ltac:(lia) Hseq ltac:(pose proof (blen_nonneg sdu); lia)
+                ps true Hshape Hall) as Hok.
+  eapply Forall_impl; [|exact Hok]. intros p Hp. apply iso_wire_roundtrip. exact Hp.
+Qed.
+
+(* a zero-length SDU: no packet, the sequence number still advances (one number per SDU) *)
+Lemma send_iso_sdu_empty h maxp seq : 0 <= seq -> send_iso_sdu h maxp seq [] = (Some [], (seq + 1) mod 65536).
+Proof. intros H. unfold send_iso_sdu. cbn [iso_loop length]. rewrite land_ffff by lia. reflexivity. Qed.
